@@ -50,9 +50,10 @@ LinIsExact == Finished => [mem |-> am, rets |-> ar] \in Lin(Case.w, Case.sg, Ops
 (* shared `expected` object: once the producer's compare-exchange has succeeded, only the consumer
    writes it - at the end it holds the consumer's value whenever the consumer saw the hand-off *)
 HandOff == (Finished /\ Case.opk = "casx") =>
-             (ar[2] = <<1>> => am.x = Canon(Case.w, Ops[2][1].v))
+             (ar[2] = <<1>> => am.x = CanonT(Case.w, Case.sg, Ops[2][1].v))
 
-Commutative == Case.mix = 0 /\ Case.opk \in {"add", "sub", "and", "or", "xor", "fadd", "fsub", "fand", "for", "fxor",
+(* not for _Bool (sg = 2): the conversion to _Bool saturates, (0 + 1) - 1 = 0 but (0 - 1) + 1 = 1 *)
+Commutative == Case.mix = 0 /\ Case.sg # 2 /\ Case.opk \in {"add", "sub", "and", "or", "xor", "fadd", "fsub", "fand", "for", "fxor",
                              "preinc", "predec", "postinc", "postdec", "casinc", "lock"}
 RECURSIVE FoldAll(_, _, _)
 FoldAll(cur, t, k) ==
@@ -66,6 +67,6 @@ CasHonest ==
     \A t \in Threads : \A k \in 1..Len(ar[t]) :
        LET r == ar[t][k]
            o == Ops[t][k]
-       IN IF r % 2 = 1 THEN Canon(Case.w, o.v) \in seen /\ r = AsLong(Case.w, Case.sg, Canon(Case.w, o.e)) * 2 + 1
-          ELSE \E s \in seen : r = AsLong(Case.w, Case.sg, s) * 2 /\ s # Canon(Case.w, o.e)
+       IN IF r % 2 = 1 THEN CanonT(Case.w, Case.sg, o.v) \in seen /\ r = AsLong(Case.w, Case.sg, CanonT(Case.w, Case.sg, o.e)) * 2 + 1
+          ELSE \E s \in seen : r = AsLong(Case.w, Case.sg, s) * 2 /\ s # CanonT(Case.w, Case.sg, o.e)
 =============================================================================
